@@ -10,7 +10,8 @@ ASSUME = ['reference SIV/ISAP validated on pinned vectors (ISAP: official submis
 
 
 def harnesses():
-    return [with_args(H['aead'], 'aead', ['--arg', 'enc:C06'], 20000, 400000)]
+    return [with_args(H['aead'], 'aead', ['--arg', 'enc:C06'], 20000, 400000),
+            with_args(H['cpp'], 'cpp', ['--arg', 'ciphers'], 12000, 200000)]
 
 
 def run(ctx):
